@@ -70,9 +70,10 @@ fn main() {
             let shards = o.finish();
             println!("{{\"events\":{n},\"shards\":{shards}}}");
         }
-        ("record", "cut") | ("record", "dec3") | ("record", "poll") | ("record", "stream") | ("record", "fault") => {
+        ("record", "short") | ("record", "cut") | ("record", "dec3") | ("record", "poll") | ("record", "stream") | ("record", "fault") => {
             let mut o = out::Out::new(&outp, shard);
             match area {
+                "short" => frontends::record_short(&mut o, &tier),
                 "cut" => frontends::record_cut(&mut o, &tier, seed),
                 "dec3" => frontends::record_dec3(&mut o, &tier, seed),
                 "poll" => frontends::record_poll(&mut o, &tier, seed),
